@@ -16,11 +16,12 @@ open ModVerif ModVerif.GoRt
 
 /-! ### the monad -/
 
-@[simp] theorem ok_bind {α β : Type} (a : α) (f : α → M β) : ((Except.ok a : M α) >>= f) = f a := by
+@[simp] theorem ok_bind {ε α β : Type} (a : α) (f : α → Except ε β) : ((Except.ok a : Except ε α) >>= f) = f a := by
   simp only [bind, Except.bind]
-@[simp] theorem error_bind {α β : Type} (e : Err) (f : α → M β) : ((Except.error e : M α) >>= f) = .error e := by
+@[simp] theorem error_bind {ε α β : Type} (e : ε) (f : α → Except ε β) :
+    ((Except.error e : Except ε α) >>= f) = .error e := by
   simp only [bind, Except.bind]
-@[simp] theorem pure_eq_ok {α : Type} (a : α) : (pure a : M α) = .ok a := by
+@[simp] theorem pure_eq_ok {ε α : Type} (a : α) : (pure a : Except ε α) = .ok a := by
   simp only [pure, Except.pure]
 @[simp] theorem throw_eq_error {α : Type} (e : Err) : (throw e : M α) = .error e := by
   simp only [throw, throwThe, MonadExceptOf.throw]
